@@ -47,6 +47,23 @@ Interpretation decisions (kept no stronger than the statement + the documented b
    default True then conflicts with show_endpoints=False) while the maze's own as_ascii(False, False) works.
    Exports are only requested when the true path is a chain of lattice-adjacent cells (as_pixels asserts that).
  * add_true_path called twice: the later path replaces the earlier one (setter semantics of the code).
+ * add_node_values called twice: the later values replace the earlier ones (same setter semantics).
+ * an EMPTY predicted path lists no cell: nothing may be drawn for it and the plot must not fail (`_plot_path` skips it).
+ * grids with a side of 1 (1x1, 1xN, Nx1) are outside the quantifier ("grid sizes 2..8"): they are exercised, but every clause of
+   such a record is reported as Layer M ("M:outside_grid_sizes:<clause>").
+ * arguments (audit 2, class E): every array / list / dict handed to the library is the caller's OWN object (connection list in C /
+   Fortran / strided layout, cell values float64 / float32 / Fortran / strided, path coordinates as list of tuples / lists / numpy
+   ints / arrays, int64 / int32 / int8 arrays, Fortran-ordered and strided views, StyledPath, start / end as array / tuple / list).
+   After plot() (and after to_ascii) they are compared with a deep snapshot (M:argument_modified - the statement does not speak about
+   the arguments; the stated consequences of a modified maze, a wrong export or a wrong second plot, are Layer P because the maze's
+   "own" drawing and the oracle's inputs are built from pristine copies), then ALL of them are overwritten in place and only then the
+   artists are read: the finished figure must not depend on the caller's memory any more.  NOT generated: overwriting an array between
+   add_*() and plot() - MazePlot keeps the caller's ndarray (and SolvedMaze.solution) by reference until plot(), by design.
+ * cell values must be floats (`Float[np.ndarray]`): an INTEGER array makes np.full_like(values, nan) an int array, so walls get the
+   value -9.2e18 instead of NaN (observed, outside the declared type, not generated).
+ * colormap_center / target_token_coord / preceeding_tokens_coords of add_node_values are exercised with their falsy values (0.0,
+   cell (0, 0), empty list): the image must not change, the marked coordinates count as marks (Layer M); colours are not judged
+   (all-zero values together with colormap_center=0.0 are refused by matplotlib's TwoSlopeNorm - not generated).
 
 Canaries are corruptions of HAND-MADE records; the uncorrupted ones must be accepted on every run.
 Everything the library does in the driver is recorded as an outcome and judged.
@@ -1128,6 +1145,11 @@ def main(chk: lib.Check) -> int:
         "plus a large-unit-length family (ul 18..256 with ul*(n-1) just below / at / above 127 and 255 on grids 2..8, square and oblong, paths through the far corners) "
         "with random true / predicted paths (shortest paths, simple walks, arbitrary cell sequences with repeats and jumps, single cells; list / array / StyledPath "
         "line / quiver / cmap / int8-array inputs, add_multiple_paths, replaced true path), mark_coords, plain / own axes / hidden colorbar; "
+        "every figure: the caller's own argument objects (C / Fortran / strided layouts, float32 values, numpy unit lengths, mazes built through the factories, with redundant "
+        "start / end and generation metadata) are snapshotted, compared after plot() / to_ascii() and overwritten before the artists are read; 15 % of the figures are plotted twice (the second is judged), "
+        "cell values supplied twice, add_node_values options with falsy values; edge family: paths of 0 / 1 / 2 cells x every input representation / format option (20 predicted, 18 true) on "
+        "2x5, 5x2, 3x7, 7x3, 8x2, 2x8, 2x2, 4x4 with no / every / tree connections x three kinds (one- and two-cell solutions, start == end) x cell values {none, 0.0 / 1.0 / -1.0 / 0.93 among quarters, "
+        "all zero, constant}, same argument object added twice / as true and predicted path, duplicated and empty marks; every third repetition on 1x1, 1x2, 2x1, 1x5, 5x1, 1x8 (Layer M only); "
         "non-trivial = figure produced for a graph with at least one passage and one wall"
     )
     chk.notes["records"] = {}
@@ -1199,6 +1221,7 @@ def main(chk: lib.Check) -> int:
         "matplotlib's Agg backend and its artist objects are a faithful observer: what ax.images[0].get_array()/get_extent(), Line2D.get_xydata() and Quiver.X/Y/U/V hold is what is drawn",
         "value codes: a pixel v is logged as round(100 v) only when round(100 v)/100 == v exactly (else INEXACT); the run-length encoder is harness code, cross-checked against the raw rows on every image of <= 1300 pixels and every 8th larger one (X:rle_disagrees_with_raw)",
         "input generation (all shortest paths, random walks) is harness code; the true path of a targeted maze is re-decided in TLA+ (shortest path)",
+        "argument snapshots compare coordinates / values / connection bits / metadata deeply; formatting fields of a StyledPath (label, color) are set by add_predicted_path on the caller's object by design and are not compared",
         "graphs beyond 2x2 (quick) / 2x3, 3x2 (thorough) are sampled, not exhaustive; unit lengths other than {3,4,5,7,14} and the listed large ones (18..256) not exercised",
     ]
     return chk.finish(
